@@ -839,10 +839,23 @@ func ConcPaths(fn *ssa.Function, cfg ConcCfg) (seqs []string, truncated bool) {
 	}
 	refine := func(st *ConcState, cond ssa.Value, val bool) *ConcState {
 		ns := st.clone()
+		bv := int64(0)
 		if val {
-			ns.ints[cond] = 1
-		} else {
-			ns.ints[cond] = 0
+			bv = 1
+		}
+		ns.ints[cond] = bv
+		// ... and so is what the condition stands for on this path (a flag computed once by the caller and handed to
+		// a helper that is explored inline again and again: every later test of it agrees with this one)
+		for k, v := 0, cond; k < 8; k++ {
+			nx := st.alias[v]
+			if nx == nil {
+				break
+			}
+			if _, isC := nx.(*ssa.Const); isC {
+				break
+			}
+			ns.ints[nx] = bv
+			v = nx
 		}
 		c := cond
 		pol := val
